@@ -79,6 +79,8 @@ def gen(rng, kind, tier):
             wn = sorted(wn, reverse=True)
         elif order < 0.8 and len(wn) >= 2:
             wn = wn + [wn[0]]  # unordered, with a repeated value
+        if rng.random() < 0.15:
+            wn = [0.0] + [w for w in sorted(wn)]  # a request that starts at exactly 0
         case["wave_numbers"] = wn
     return case
 
@@ -179,7 +181,12 @@ def run(case, rec):
     sf = droplets.get_structure_factor
     kind = case["kind"]
     if kind == "raw":
-        c = common.monitored(rec, "get_structure_factor", sf, field_of(spec, data), smoothing=None)
+        the_field = field_of(spec, data)
+        keep = np.array(the_field.data, copy=True)
+        c = common.monitored(rec, "get_structure_factor", sf, the_field, smoothing=None)
+        rec.check(np.array_equal(np.asarray(the_field.data), keep) and np.array_equal(np.asarray(data, float), keep), "input-unchanged",
+                  f"get_structure_factor modified the field it was given; {label}")
+        data = keep  # later relations start from the original values
         if not rec.check(c.ok, "no-exception", f"get_structure_factor raised {common.exc_text(c.exc) if c.exc else ''}; {label}"):
             rec.evaluated(nontrivial=False)
             return
